@@ -249,7 +249,8 @@ def writer_case(draw):
     nt = draw(st.integers(1, 3))
     return dict(fg=fg, dg=dg, layout=layout, nt=nt, ns=draw(st.integers(1, 3)), specs=[draw(gen.spectrum(kinds=("multinoisy", "sparse"))) for _ in range(3)],
                 writer=draw(st.sampled_from(["to_swan", "to_octopus", "to_json", "to_netcdf", "to_ww3", "to_funwave", "to_swan_gz"])), backing=draw(st.sampled_from(["numpy", "dask", "view"])),
-                winds=draw(st.booleans()), nolatlon=draw(st.integers(0, 3)) == 0, give_lonlat=draw(st.booleans()), notime=draw(st.integers(0, 3)) == 0)
+                winds=draw(st.booleans()), nolatlon=draw(st.integers(0, 3)) == 0, give_lonlat=draw(st.booleans()), notime=draw(st.integers(0, 3)) == 0,
+                lonlat_kind=draw(st.sampled_from(["site-var", "site-var", "site-coord", "scalar-var", "scalar-coord"])), scalar_time=draw(st.booleans()))
 
 
 def build_wavespectra_dataset(case, backing="numpy"):
@@ -260,14 +261,28 @@ def build_wavespectra_dataset(case, backing="numpy"):
         dims = [["time", case["nt"]], ["lat", 2], ["lon", max(2, case["ns"])]]
     else:
         dims = [["time", case["nt"]], ["site", case["ns"]]]
-    if case.get("notime"):
+    scalar_time = case.get("notime") and case.get("scalar_time")
+    if scalar_time:
+        dims[0] = ["time", 1]
+    elif case.get("notime"):
         dims = dims[1:]
     x = gen.build_dataarray(case["fg"], case["dg"], case["specs"], dims, dtype="float64")
+    if scalar_time:
+        # one time step picked out of a series: no time dimension, a scalar time coordinate
+        x = x.isel(time=0)
+        x = x.copy(data=np.ascontiguousarray(x.values))
+        dims = dims[1:]
     x, parent = _backed(x, backing)
     ds = x.to_dataset(name="efth")
     if case["layout"] == "station" and not case.get("nolatlon"):
-        ds["lon"] = (("site",), 150.0 + np.arange(case["ns"]) * 0.5)
-        ds["lat"] = (("site",), -30.0 - np.arange(case["ns"]) * 0.25)
+        kind = case.get("lonlat_kind", "site-var")
+        if kind.startswith("scalar"):
+            ds["lon"], ds["lat"] = ((), 150.0), ((), -30.0)
+        else:
+            ds["lon"] = (("site",), 150.0 + np.arange(case["ns"]) * 0.5)
+            ds["lat"] = (("site",), -30.0 - np.arange(case["ns"]) * 0.25)
+        if kind.endswith("coord"):
+            ds = ds.set_coords(["lon", "lat"])
     lead = [d for d, _ in dims]
     if case.get("winds"):
         shape = [n for _, n in dims]
@@ -303,7 +318,8 @@ def check_writers(case, ctx):
     if d:
         raise Violation("input-modified", "%s on a %s-backed %s dataset (%s): %s" % (w, case["backing"], case["layout"], verdict, d))
     ctx.nt(True)
-    ctx.label("writer=" + w, "backing=" + case["backing"], "layout=" + case["layout"] + ("-nolatlon" if case.get("nolatlon") and case["layout"] == "station" else "") + ("-notime" if case.get("notime") else ""), verdict)
+    ctx.label("writer=" + w, "backing=" + case["backing"], "layout=" + case["layout"] + ("-nolatlon" if case.get("nolatlon") and case["layout"] == "station" else "") + ("-scalartime" if case.get("notime") and case.get("scalar_time") else "-notime" if case.get("notime") else ""),
+              "lonlat=" + case.get("lonlat_kind", "site-var"), verdict)
     ctx.show(dict(writer=w, backing=case["backing"], layout=case["layout"], nt=case["nt"], verdict=verdict))
 
 
